@@ -769,6 +769,7 @@ fn dump_crate(tcx: TyCtxt<'_>, out_dir: &str) {
     // Pass 1: clone every body before anything can steal it.
     let owners: Vec<LocalDefId> = tcx.hir_body_owners().collect();
     let mut bodies: Vec<(LocalDefId, Body<'_>)> = Vec::new();
+    let mut promoteds: Vec<Vec<Body<'_>>> = Vec::new();
     let mut stolen = 0usize;
     for ldid in owners.iter().copied() {
         let kind = tcx.def_kind(ldid);
@@ -776,13 +777,15 @@ fn dump_crate(tcx: TyCtxt<'_>, out_dir: &str) {
             DefKind::Fn | DefKind::AssocFn | DefKind::Closure | DefKind::SyntheticCoroutineBody => {}
             _ => continue, // consts/statics: evaluated below, body not needed
         }
-        let (steal, _) = tcx.mir_promoted(ldid);
+        let (steal, psteal) = tcx.mir_promoted(ldid);
         if steal.is_stolen() {
             stolen += 1;
             continue;
         }
         let b = steal.borrow().clone();
         bodies.push((ldid, b));
+        let ps: Vec<Body<'_>> = if psteal.is_stolen() { Vec::new() } else { psteal.borrow().iter().cloned().collect() };
+        promoteds.push(ps);
     }
 
     // ADTs
@@ -847,7 +850,7 @@ fn dump_crate(tcx: TyCtxt<'_>, out_dir: &str) {
     // Bodies
     out.push_str("\"fns\":[\n");
     let mut first = true;
-    for (ldid, body) in bodies.iter() {
+    for (bidx, (ldid, body)) in bodies.iter().enumerate() {
         let did = ldid.to_def_id();
         let kind = tcx.def_kind(did);
         if !first {
@@ -959,6 +962,50 @@ fn dump_crate(tcx: TyCtxt<'_>, out_dir: &str) {
             out.push('}');
         }
         out.push_str("\n]");
+        // promoted constants (`&CONST`, `&Enum::Variant`, ...): small straight-line bodies
+        out.push_str(",\"promoted\":[");
+        let mut pf = true;
+        for pb in promoteds[bidx].iter() {
+            if !pf {
+                out.push(',');
+            }
+            pf = false;
+            let pcx = Cx { tcx, body: pb, env };
+            out.push_str("{\"locals\":[");
+            let mut lf = true;
+            for (_l, decl) in pb.local_decls.iter_enumerated() {
+                if !lf {
+                    out.push(',');
+                }
+                lf = false;
+                let _ = write!(out, "{{\"ty\":{},\"mut\":false}}", js(&ty_str(decl.ty)));
+            }
+            out.push_str("],\"blocks\":[");
+            let mut bf = true;
+            for (_bb, data) in pb.basic_blocks.iter_enumerated() {
+                if !bf {
+                    out.push(',');
+                }
+                bf = false;
+                let _ = write!(out, "{{\"cleanup\":{},\"stmts\":[", data.is_cleanup);
+                let mut sf = true;
+                for st in data.statements.iter() {
+                    let mut tmp = String::new();
+                    if pcx.stmt(st, &mut tmp) {
+                        if !sf {
+                            out.push(',');
+                        }
+                        sf = false;
+                        out.push_str(&tmp);
+                    }
+                }
+                out.push_str("],\"term\":");
+                pcx.term(data.terminator(), &mut out);
+                out.push('}');
+            }
+            out.push_str("]}");
+        }
+        out.push(']');
         if is_coroutine {
             out.push_str(",\"witnesses\":[");
             if let Some(layout) = tcx.mir_coroutine_witnesses(did) {
